@@ -154,6 +154,21 @@ def corr(ctx):
                                 ok = bool((out == torch.tensor(msgs[: 4], dtype=out.dtype)).all())
                                 ops.append(Op("pkron 0", "1", nontrivial=False,
                                               info={"site": "fec.decoders:BeliefPropagationPolarDecoder.clean", "config": dict(cfg, regime=regime, magnitude=a)}, prop_ok=ok))
+                        # histories: the same decoder object, few iterations, a strong batch followed by a weak one of
+                        # other code words - the answer must not depend on the earlier call
+                        for regime in ("sum_product", "min_sum"):
+                            for iters in (1, 2, 3):
+                                bp = quiet(BeliefPropagationPolarDecoder, enc, regime=regime, bp_iters=iters)
+                                nb = min(4, B // 2)
+                                if nb == 0:
+                                    continue
+                                first, second = X[:nb], X[B - nb:]
+                                outs = [quiet(bp, (1 - 2 * first) * 100.0), quiet(bp, (1 - 2 * second) * 0.5)]
+                                fresh = quiet(quiet(BeliefPropagationPolarDecoder, enc, regime=regime, bp_iters=iters), (1 - 2 * second) * 0.5)
+                                same = bool((outs[1] == fresh).all())
+                                ok2 = bool((outs[1] == torch.tensor(msgs[B - nb:], dtype=outs[1].dtype)).all()) and bool((outs[0] == torch.tensor(msgs[:nb], dtype=outs[0].dtype)).all())
+                                ops.append(Op("pkron 0", "1", nontrivial=False,
+                                              info={"site": "fec.decoders:BeliefPropagationPolarDecoder.history", "config": dict(cfg, regime=regime, bp_iters=iters, batch=nb, same_as_fresh_decoder=same)}, prop_ok=same and ok2))
                         ctx.count("bp_clean")
     # user-supplied information masks are used verbatim
     for N, mask in ((8, [0, 1, 0, 1, 1, 0, 1, 1]), (8, [1, 1, 1, 1, 0, 0, 0, 0]), (16, [rng.getrandbits(1) for _ in range(16)])):
